@@ -185,6 +185,7 @@ pub struct ReadRun {
     /// per reader: Err, or (epoch, root, verified?) — `None` root list means unverifiable here
     pub reads: Vec<Result<(u64, [u8; 32], bool), String>>,
     pub choices: Vec<Choice>,
+    pub trace: Vec<(usize, String, String)>,
 }
 
 /// one publish (task 0, writer instance) interleaved with read requests (tasks 1.., a separate read-only
@@ -194,8 +195,13 @@ fn run_reads<TC: akd::configuration::Configuration>(base: &[DbRecord], batch: &B
     let rt = tokio::runtime::Builder::new_current_thread().enable_all().build().unwrap();
     rt.block_on(async {
         let db = SchedDb::from_records(base).await;
-        let writer = Directory::<TC, _, _>::new(make_mgr(db.clone(), "none"), HardCodedAkdVRF {}, AzksParallelismConfig::disabled()).await.unwrap();
-        let reader = akd::directory::ReadOnlyDirectory::<TC, _, _>::new(make_mgr(db.clone(), reader_cache), HardCodedAkdVRF {}, AzksParallelismConfig::disabled()).await.unwrap();
+        // `same:<mode>`: the readers share the writer's storage manager (and its cache), and reads have latency
+        let shared = reader_cache.strip_prefix("same:");
+        let wmgr = make_mgr(db.clone(), shared.unwrap_or("none"));
+        let writer = Directory::<TC, _, _>::new(wmgr.clone(), HardCodedAkdVRF {}, AzksParallelismConfig::disabled()).await.unwrap();
+        let rmgr = if shared.is_some() { wmgr.clone() } else { make_mgr(db.clone(), reader_cache) };
+        let reader = akd::directory::ReadOnlyDirectory::<TC, _, _>::new(rmgr, HardCodedAkdVRF {}, AzksParallelismConfig::disabled()).await.unwrap();
+        db.ctl.split_reads.store(shared.is_some(), Ordering::SeqCst);
         let pk = HardCodedAkdVRF {}.get_vrf_public_key().await.unwrap();
         db.ctl.enabled.store(true, Ordering::SeqCst);
         let b = batch.clone();
@@ -246,7 +252,21 @@ fn run_reads<TC: akd::configuration::Configuration>(base: &[DbRecord], batch: &B
                 Err(e) => Err(format!("panicked: {e}")),
             });
         }
-        ReadRun { publish, reads: out, choices }
+        // afterwards, with everything quiet: what does the (shared) instance answer now?
+        if shared.is_some() {
+            let after = reader.get_epoch_hash().await.map(|e| (e.0, e.1, true)).map_err(|e| e.to_string());
+            out.push(after);
+            for op in reads.iter() {
+                if let ReadOp::Lookup(u) = op {
+                    out.push(match reader.lookup(u.clone()).await {
+                        Ok((p, eh)) => Ok((eh.0, eh.1, akd::verify::lookup_verify::<TC>(pk.as_bytes(), eh.1, eh.0, u.clone(), p).is_ok())),
+                        Err(e) => Err(e.to_string()),
+                    });
+                }
+            }
+        }
+        let trace = db.ctl.trace.lock().unwrap().clone();
+        ReadRun { publish, reads: out, choices, trace }
     })
 }
 
@@ -318,7 +338,7 @@ pub fn step(ex: &mut Exec, st: &mut L1State, op: &str, toks: &[&str]) -> Option<
                     }
                     for (k, rd) in r.reads.iter().enumerate() {
                         if let Ok((e, h, verified)) = rd {
-                            let is_audit = matches!(reads[k], ReadOp::Audit(_, _));
+                            let is_audit = k < reads.len() && matches!(reads[k], ReadOp::Audit(_, _));
                             let bad = if !is_audit && !published.contains(&(*e, *h)) {
                                 Some(("unpublished-epoch-hash", format!("answered with epoch {} and root {}, never published for that epoch", e, hex::encode(h))))
                             } else if !verified {
@@ -331,7 +351,10 @@ pub fn step(ex: &mut Exec, st: &mut L1State, op: &str, toks: &[&str]) -> Option<
                             if let Some((tag, what)) = bad {
                                 violations += 1;
                                 if violations <= 3 {
-                                    ex.fail_tag("C13", tag, format!("schedule {} ({} preemptions), {:?} interleaved with a publish: {}", show_sched(&r.choices), preemptions(&chosen, &enabled), reads[k], what));
+                                    let which = if k < reads.len() { format!("{:?} interleaved with a publish", reads[k]) } else { "a request AFTER the interleaved run, on the same instance".to_string() };
+                                    let tag2 = if rcache.starts_with("same:") { format!("cachefill-{tag}") } else { tag.to_string() };
+                                    let calls: Vec<String> = r.trace.iter().map(|(t, k, d)| if d.is_empty() { format!("{t}:{k}") } else { format!("{t}:{k}:{d}") }).collect();
+                                    ex.fail_tag("C13", &tag2, format!("schedule {} ({} preemptions), {}: {}; storage calls in order: {}", show_sched(&r.choices), preemptions(&chosen, &enabled), which, what, calls.join(" ")));
                                 }
                             }
                         }
